@@ -8,7 +8,6 @@ Open Scope Q_scope.
 
 Section Thm.
 Variables (K : kern) (inev : event).
-Hypothesis Hstretch : get "stretch" inev = None.
 
 (* ---- T1: the outputs of child c are c's own timeline ------------------------------------------------------------ *)
 (* c's own timeline from time t: its events with the times start + sum of its own preceding deltas *)
@@ -158,7 +157,7 @@ Proof.
     + destruct k as [|k]; cbn [nth_error firstn map qsum] in *.
       * inversion H; subst. cbn. ring.
       * rewrite (IH _ _ _ Hinv' k o H). unfold out_delta at 2. cbn [po_ev].
-        rewrite (out_delta_rest K inev Hstretch). cbn [toQ]. ring.
+        rewrite (out_delta_rest K inev). cbn [toQ]. ring.
     + destruct k as [|k]; cbn [nth_error firstn map qsum] in *.
       * inversion H; subst. cbn. ring.
       * rewrite (IH _ _ _ Hinv' k o H). unfold out_delta at 2. cbn [po_ev].
@@ -217,7 +216,7 @@ Proof.
       destruct H as [[m0 [Hm0 Em0]] Hub].
       cbn [map qsum].
       apply (is_max_eq _ (toQ (F (prio y)) + qsum (map out_delta (par_run K inev f (r, n) (F (prio y)) (set_nth i [] ls))))).
-      2: { unfold out_delta at 1. cbn [po_ev]. rewrite (out_delta_rest K inev Hstretch). cbn [toQ]. ring. }
+      2: { unfold out_delta at 1. cbn [po_ev]. rewrite (out_delta_rest K inev). cbn [toQ]. ring. }
       split.
       * exists m0. split; [right; exact Hm0|exact Em0].
       * intros b [Hb|Hb]; [|apply Hub; exact Hb].
